@@ -193,7 +193,7 @@ func checkC01(c *Ctx, r *Report) {
 	checkNoLeak(c, r)
 
 	// C01.f verb tables
-	checkVerbTables(c, r)
+	checkVerbTables(c, r, "C01.f")
 
 	// the visitor collects every endpoint receiver of the controller
 	const vc = "(*core/visitors.ControllerVisitor).visitController"
@@ -541,14 +541,14 @@ func checkNoLeak(c *Ctx, r *Report) {
 	r.add("C01.e", "guardedby", vc+":VisitMethod guarded by package identity", "receiver collection is restricted to the controller's own package", []string{vc}, sites, viol)
 }
 
-func checkVerbTables(c *Ctx, r *Report) {
+func checkVerbTables(c *Ctx, r *Report, clause string) {
 	w := c.W
 	supported, pos := w.globalMapKeys("definitions", "routeSupportedHttpVerbs")
 	var sites []string
 	sites = append(sites, w.pos(pos))
 	// 3.1 switch labels
 	var labels31 []string
-	if fi := need(c, r, "C01.f", "generator/swagen/swagen31.setNewRouteOperation"); fi != nil {
+	if fi := need(c, r, clause, "generator/swagen/swagen31.setNewRouteOperation"); fi != nil {
 		for _, sw := range w.switches(fi, func(tag ast.Expr) bool {
 			se, ok := tag.(*ast.SelectorExpr)
 			return ok && qualField(fi.Pkg.TypesInfo, se) == "definitions.RouteMetadata.HttpVerb"
@@ -557,7 +557,7 @@ func checkVerbTables(c *Ctx, r *Report) {
 			sites = append(sites, w.pos(sw.Pos))
 		}
 	}
-	ruleSubset(c, r, "C01.f", "routeSupportedHttpVerbs⊆swagen31.setNewRouteOperation-cases", "every verb validation accepts has an arm in the 3.1 emitter (otherwise the operation is silently dropped)", "definitions.routeSupportedHttpVerbs", supported, "swagen31 verb switch", labels31, sites)
+	ruleSubset(c, r, clause, "routeSupportedHttpVerbs⊆swagen31.setNewRouteOperation-cases", "every verb validation accepts has an arm in the 3.1 emitter (otherwise the operation is silently dropped)", "definitions.routeSupportedHttpVerbs", supported, "swagen31 verb switch", labels31, sites)
 
 	// kin-openapi SetOperation labels (read from the library source that is compiled in)
 	var kinLabels []string
@@ -586,5 +586,5 @@ func checkVerbTables(c *Ctx, r *Report) {
 		}
 	}
 	sort.Strings(kinLabels)
-	ruleSubset(c, r, "C01.f", "routeSupportedHttpVerbs⊆kin.SetOperation-cases", "every verb validation accepts is accepted by kin-openapi PathItem.SetOperation (which panics otherwise)", "definitions.routeSupportedHttpVerbs", supported, "kin-openapi SetOperation switch", kinLabels, append(sites[:1], ksites...))
+	ruleSubset(c, r, clause, "routeSupportedHttpVerbs⊆kin.SetOperation-cases", "every verb validation accepts is accepted by kin-openapi PathItem.SetOperation (which panics otherwise)", "definitions.routeSupportedHttpVerbs", supported, "kin-openapi SetOperation switch", kinLabels, append(sites[:1], ksites...))
 }
